@@ -2,7 +2,7 @@
    correspondence with packages/cache/cache.go is checked on every run (K1),
    and whose guard / sentinels are regenerated from /repo (GVGen.Tables). *)
 From Coq Require Import List NArith ZArith Bool Lia.
-From GV Require Import Lib.Bytes C20.Model C20.Proofs.
+From GV Require Import Lib.Bytes C20.Model C20.Proofs C20.Conc C20.ConcProofs.
 From GVGen Require Import Tables.
 Import ListNotations.
 
@@ -70,6 +70,45 @@ Theorem C20_load_never_faults :
 Proof. intros; now apply load_bytes_no_fault. Qed.
 Print Assumptions C20_load_never_faults.
 
+(* 7. Concurrent lookups.  Any number of goroutines call Find (threads present at
+      the start and threads spawned later), interleaved in any way at the
+      granularity of single shared / external accesses (sync.Map load and store,
+      every PkgHash call, the nlist increment, the run of `go list`, os.Open),
+      over a world that does not change meanwhile: every caller that has
+      returned got exactly what a sequential Find on the initial state returns. *)
+Theorem C20_concurrent_finds_return_the_sequential_result :
+  forall (w : world) (c0 : cache) (n0 : nat) (ps : list str) (sched : list item) i p r,
+    forallb conc_item sched = true ->
+    nth_error (g_ts (crun (start (mkState c0 n0 w) ps) sched)) i = Some (p, PDone r) ->
+    r = snd (find (mkState c0 n0 w) p).
+Proof. exact conc_result_sequential. Qed.
+Print Assumptions C20_concurrent_finds_return_the_sequential_result.
+
+(* 8. ... and under every such schedule each cache slot either still holds the
+      initial entry or, only if that entry had to be re-listed, exactly the entry
+      a sequential re-listing records (no torn or mixed entries). *)
+Theorem C20_concurrent_finds_keep_the_cache_coherent :
+  forall (w : world) (c0 : cache) (n0 : nat) (ps : list str) (sched : list item) q,
+    forallb conc_item sched = true ->
+    let c := g_c (crun (start (mkState c0 n0 w) ps) sched) in
+    lookup q c = lookup q c0 \/
+    (must_relist (mkState c0 n0 w) q /\ w_fail w = false /\
+     exists v, lookup q (w_pkgs w) = Some v /\ lookup q c = Some (record_entry w q v)).
+Proof. exact conc_cache_coherent. Qed.
+Print Assumptions C20_concurrent_finds_keep_the_cache_coherent.
+
+(* 9. ... and if none of the packages looked up needs re-listing, no schedule
+      lists at all and the cache is not written. *)
+Theorem C20_concurrent_clean_entries_never_list :
+  forall (w : world) (c0 : cache) (n0 : nat) (ps : list str) (sched : list item),
+    forallb conc_item sched = true ->
+    (forall t, In t (g_ts (crun (start (mkState c0 n0 w) ps) sched)) ->
+               ~ must_relist (mkState c0 n0 w) (fst t)) ->
+    g_n (crun (start (mkState c0 n0 w) ps) sched) = n0 /\
+    g_c (crun (start (mkState c0 n0 w) ps) sched) = c0.
+Proof. exact conc_clean_entries_no_listing. Qed.
+Print Assumptions C20_concurrent_clean_entries_never_list.
+
 (* ---- non-vacuity ---- *)
 Definition ex_entry : str * entry :=
   ([102; 109; 116], mkEntry [47; 120; 46; 97] [104; 49] [([105; 111], [104; 50]); ([111; 115], [])])%N.
@@ -89,3 +128,14 @@ Example ex_relist_state :
   let s := mkState [] 0 (mkWorld [] [([112]%N, ([102]%N, []))] false [[102]%N] None) in
   must_relist s [112]%N /\ find s [112]%N = (mkState [([112]%N, mkEntry [102]%N default_hash [])] 1 (st_w s), Served [102]%N).
 Proof. split; [left; reflexivity|vm_compute; reflexivity]. Qed.
+
+(* two goroutines look up the same missing package; one schedule in which both
+   re-list: both finish with the sequential result *)
+Example ex_conc_schedule :
+  let w := mkWorld [] [([112]%N, ([102]%N, [[113]%N]))] false [[102]%N] None in
+  let sched := repeat (IThread 0) 4 ++ repeat (IThread 1) 9 ++ repeat (IThread 0) 5 in
+  forallb conc_item sched = true /\
+  map snd (g_ts (crun (start (mkState [] 0 w) [[112]%N; [112]%N]) sched))
+    = [PDone (Served [102]%N); PDone (Served [102]%N)] /\
+  g_n (crun (start (mkState [] 0 w) [[112]%N; [112]%N]) sched) = 2.
+Proof. vm_compute. repeat split. Qed.
